@@ -446,7 +446,7 @@ def observe_raw(world, path_info, qs, flow='wms', extra_headers=None):
                 o.unsafe.append(('read' if read else 'write', ev, p))
             # ---- projection for the model
             q = _TMP_RE.sub('', p)
-            if kind.canon:
+            if kind.canon and not _LOCK_RE.match(os.path.basename(q)):
                 q = kind.canon(q)
             if q.endswith('.init.lck'):
                 q = q[:-len('.init.lck')]
@@ -997,7 +997,11 @@ def request_events(world, req, o):
             if flow == 'tms' and req.get('origin') == 'nw':
                 # TMS with ?origin=nw addresses rows from the top: the same tile as the flipped row
                 t = [t[0], 2 ** t[2] - 1 - t[1], t[2]] if 0 <= t[2] < world.levels else t
-            ev.append({'ev': 'tile', 'tile': t})
+            cands = []
+            if in_grid(t, world.levels):
+                it = [t[0], 2 ** t[2] - 1 - t[1], t[2]] if flow in ('wmts_kvp', 'wmts_rest') else t
+                cands = wms_cands(world, {'tile': it})
+            ev.append({'ev': 'tile', 'tile': t, 'cands': cands})
         if o.out == 'served':
             ev.append({'ev': 'lock'})
             ev.append({'ev': 'store'})
